@@ -95,13 +95,14 @@ pub(super) fn vtrace_world(w: &World) {
     let sh = &w.sh;
     let rec = |r: &Rec| if r.present { format!("{{\"state\":{},\"ttl\":{}}}", jm(&r.state), r.ttl) } else { "null".to_string() };
     vtrace(format!(
-        "{{\"kind\":\"world\",\"idk\":{},\"ssk\":{},\"smap\":{},\"rem_ttl\":{},\"client_updated\":{},\"cmap\":{},\"invalidated\":{},\"rec_o\":{},\"rec_n\":{},\"rec_x\":{},\"extend_on_loads\":{},\"threshold\":{},\"never_skip\":{},\"allow\":{}}}",
+        "{{\"kind\":\"world\",\"idk\":{},\"ssk\":{},\"smap\":{},\"rem_ttl\":{},\"client_updated\":{},\"cmap\":{},\"invalidated\":{},\"rec_o\":{},\"rec_n\":{},\"rec_x\":{},\"extend_on_loads\":{},\"threshold\":{},\"never_skip\":{},\"allow\":{},\"cookie_kind\":\"{}\"}}",
         sh.idk as u8, sh.ssk as u8, jm(&sh.smap), sh.rem_ttl, sh.client_updated, jm(&sh.cmap), sh.invalidated,
         rec(&w.db0[0]), rec(&w.db0[1]), rec(&w.db0[2]),
         w.cfg.state.extend_ttl == TtlExtensionTrigger::OnStateLoadsAndChanges,
         w.cfg.state.ttl_extension_threshold.is_some(),
         w.cfg.state.server_state_creation == ServerStateCreation::NeverSkip,
         w.allow,
+        if w.cfg.cookie.kind == SessionCookieKind::Persistent { "persistent" } else { "session" },
     ));
 }
 #[cfg(test)]
@@ -762,8 +763,12 @@ pub(super) fn check_step(w: &World, s: &Session<'_>, m: &Model) {
     assert!(sh2.cur == w.sh.cur && sh2.old == w.sh.old && sh2.idk == w.sh.idk, "the session id changed behind the user's back");
 }
 
+/// The default cookie configuration, with either cookie kind: the kind decides whether the cookie gets
+/// a Max-Age and must not decide anything else (what is stored, when the ttl is refreshed).
 pub(super) fn default_cookie() -> SessionCookieConfig {
-    SessionCookieConfig::default()
+    let mut c = SessionCookieConfig::default();
+    c.kind = if nd::any_bool() { SessionCookieKind::Persistent } else { SessionCookieKind::Session };
+    c
 }
 
 // =============================================================================================
